@@ -110,6 +110,25 @@ pub mod rsapool {
         };
         k2.to_der().ok()
     }
+    /// a different valid private key over the *same modulus* (another public exponent, hence another d)
+    pub fn same_modulus_other_exponent(sk_der: &[u8]) -> Option<Vec<u8>> {
+        use rsa::pkcs1::{DecodeRsaPrivateKey, EncodeRsaPrivateKey};
+        use rsa::traits::{PrivateKeyParts, PublicKeyParts};
+        let k = rsa::RsaPrivateKey::from_pkcs1_der(sk_der).ok()?;
+        let (p, q) = (k.primes()[0].clone(), k.primes()[1].clone());
+        for e in [11u32, 13, 17, 19, 3, 5, 7, 257, 65537] {
+            let e = rsa::BigUint::from(e);
+            if &e == k.e() {
+                continue;
+            }
+            if let Ok(k2) = rsa::RsaPrivateKey::from_p_q(p.clone(), q.clone(), e) {
+                if k2.n() == k.n() && k2.validate().is_ok() {
+                    return k2.to_pkcs1_der().ok().map(|d| d.as_bytes().to_vec());
+                }
+            }
+        }
+        None
+    }
     /// canonical PKCS#1 DER of a private key given as DER or PEM (independent parser, CRT values recomputed)
     pub fn canonical_secret(input: &[u8]) -> Option<Vec<u8>> {
         use rsa::pkcs1::{DecodeRsaPrivateKey, EncodeRsaPrivateKey};
@@ -313,6 +332,13 @@ impl<B: Backend> KeyPair<B> {
                 let pk = sk.public_key();
                 KeyPair::Public(sk, pk)
             }
+        }
+    }
+    /// a pair made of clones of the key objects
+    pub fn cloned(&self) -> Self {
+        match self {
+            KeyPair::Local(k) => KeyPair::Local(k.clone()),
+            KeyPair::Public(sk, pk) => KeyPair::Public(sk.clone(), pk.clone()),
         }
     }
     pub fn local_ref(&self) -> Option<&LocalKey<B>> {
@@ -594,4 +620,27 @@ pub fn split_paserk(s: &str) -> (String, Vec<u8>) {
 }
 pub fn join_paserk(header: &str, body: &[u8]) -> String {
     format!("{header}{}", crate::b64::encode(body))
+}
+
+
+/// Every way the library offers to obtain a `LocalKey` object for given key bytes: from raw bytes, from
+/// text, a clone, out of a PIE wrap, out of a password wrap, out of a PKE seal.
+pub fn derived_local_keys<B: Backend>(key: &[u8; 32], rng: &mut Rng, with_pke: bool) -> Vec<(&'static str, Result<LocalKey<B>, PasetoError>)> {
+    let base = local_key::<B>(key);
+    let wk = local_key::<B>(&rng.arr());
+    let params = pw_cheap::<B>();
+    let mut v: Vec<(&'static str, Result<LocalKey<B>, PasetoError>)> = vec![
+        ("raw", Ok(local_key::<B>(key))),
+        ("text", key_text(&base).parse::<LocalKey<B>>()),
+        ("clone", Ok(base.clone())),
+        ("pie-unwrapped", base.clone().wrap_pie(&wk).map(|w| w.to_string()).and_then(|t| t.parse::<PieWrappedKey<B, Local>>()).and_then(|w| w.unwrap(&wk))),
+        ("password-unwrapped", base.clone().password_wrap_with_params(b"pw", &params).map(|w| w.to_string()).and_then(|t| t.parse::<PasswordWrappedKey<B, Local>>()).and_then(|w| w.unwrap(b"pw"))),
+    ];
+    if with_pke {
+        let (ps, pp) = B::gen_pke_pair(rng);
+        if let (Ok(psk), Ok(ppk)) = (key_from_bytes::<B, PkeSecret>(&ps), key_from_bytes::<B, PkePublic>(&pp)) {
+            v.push(("pke-unsealed", base.clone().seal(&ppk).map(|w| w.to_string()).and_then(|t| t.parse::<SealedKey<B>>()).and_then(|w| w.unseal(&psk))));
+        }
+    }
+    v
 }
